@@ -15,7 +15,7 @@ def cbytes(b):
 
 
 IMPORTS = "Require Import V.lib.Serde V.lib.Msgpack V.lib.Cbor V.model.Quote V.model.Header V.model.Messages."
-THEOREMS = ["kind_tag_table", "tag_bijection", "unknown_tag_rejected", "header_fixed_prefix",
+THEOREMS = ["is_chunk_iff_header_chunk", "kind_tag_table", "tag_bijection", "unknown_tag_rejected", "header_fixed_prefix",
             "header_roundtrip", "from_record_accepts_iff", "from_record_short", "record_roundtrip",
             "record_kinds_distinguished", "chunk_roundtrip", "chunk_address_recomputed",
             "chunk_encoding_carries_no_address", "decode_truncated_header", "decode_truncated",
@@ -712,6 +712,10 @@ def oracle(c, o):
                               "canonical header 91 %02x decodes to %s, expected %s" % (t, got.get(x), want)))
         if o["short_ok"]:
             v.append(("short-accepted", "%d values shorter than 3 bytes were given a header" % o["short_ok"]))
+        for m in o.get("chunk_mismatch", [])[:3]:
+            v.append(("is-chunk-disagrees", "is_record_of_type_chunk(%s) = %s but from_record says %s (None = error): the two "
+                      "readers of the header must agree (error iff from_record errs, true iff the kind is Chunk)"
+                      % (m["value"], m["is_chunk_says"], m["from_record_says"])))
     elif c["op"] == "record":
         kind = c["kind"]
         if not o["rt_ok"] or not o["rt_eq"]:
@@ -787,6 +791,10 @@ def oracle(c, o):
             elif want is not None and b[0] == 0x91 and b[1] < 8:
                 v.append(("kind-tag", "canonical header %s read as %s instead of %s [%s]" % (b[:2].hex(), o["header"], want, fam)))
             # other differences are about lenient forms: left to the model comparison
+        want_chunk = None if o["header"] is None else (o["header"] == "Chunk")
+        if o["is_chunk"] != want_chunk:
+            v.append(("is-chunk-disagrees", "is_record_of_type_chunk = %s but from_record gives %s on a %d-byte value starting %s [%s]"
+                      % (o["is_chunk"], o["header"], len(b), b[:4].hex(), c.get("family"))))
         val = o.get("value")
         if val and val.get("ok") and "addr" in val:
             if val["addr"] != hashlib.sha3_256(bytes.fromhex(val["value"])).hexdigest():
@@ -879,15 +887,17 @@ def model_term(c, o):
         return None
     if c["op"] == "decode":
         val = o.get("value") or {}
+        td2 = "None" if o.get("td2") is None else "(Some %s)" % copt(o["td2"]["kind"], c_kind)
+        hdr = "agree_header_fns %s %s %s %s" % (cbytes(c["bytes"]), copt(o["header"], c_kind), copt(o["is_chunk"], cbool), td2)
         if c["as"] == "Chunk":
-            return "agree_from_record %s %s && agree_decode_chunk %s %s" % (
-                cbytes(c["bytes"]), copt(o["header"], c_kind), cbytes(c["bytes"]),
+            return "%s && agree_decode_chunk %s %s" % (
+                hdr, cbytes(c["bytes"]),
                 copt(val.get("value") if val.get("ok") else None, cbytes))
         tree = val.get("tree") if val.get("ok") else None
         if val.get("ok") and tree is None:
             return "agree_from_record %s %s" % (cbytes(c["bytes"]), copt(o["header"], c_kind))
-        return "agree_decode_record %s %s %s %s %s" % (
-            cbool(c["as"] in EXACT_KINDS), c_kind(c["as"]), cbytes(c["bytes"]), copt(o["header"], c_kind), copt(tree, c_tree))
+        return "%s && agree_decode_record %s %s %s %s %s" % (
+            hdr, cbool(c["as"] in EXACT_KINDS), c_kind(c["as"]), cbytes(c["bytes"]), copt(o["header"], c_kind), copt(tree, c_tree))
     return "false"
 
 
